@@ -35,7 +35,7 @@ Result(h, fr, r) ==
     LET dd == DecodeSelector(fr, r)
         o  == Serve(dd, h)
     IN [d |-> dd, cls |-> SelClass(dd), url |-> UrlShaped(dd), hostile |-> Hostile(dd),
-        oh |-> o.h, oroute |-> o.route, oresp |-> o.resp, olsel |-> o.lsel,
+        oh |-> o.h, oroute |-> o.route, oresp |-> FrameResp(fr, o), olsel |-> o.lsel,
         mv |-> IF ~NormalFormC(dd) THEN "NormalFormM"
                ELSE IF ~ContainmentC(dd) THEN "ContainmentM"
                ELSE IF ~PrefixClosedC(dd) THEN "PrefixClosedM"
